@@ -8,7 +8,7 @@
                                    this case: the model's parser on the model's text (floats rendered
                                    by Build.float_text), abstract trees compared *)
 From TV Require Import Base.Prelude Base.Utf8 Base.Winnow Gen.Consts Extract.Show.
-From TV Require Import Model.Datetime Model.Numbers Model.Tree Model.Parse Model.Document Model.Write Model.Encode Model.Build.
+From TV Require Import Model.Datetime Model.Numbers Model.Tree Model.Parse Model.Document Model.Write Model.Encode Model.Build Model.TomlDisplay.
 Require Import String.
 
 (* ---- reading the script ------------------------------------------------------------------ *)
@@ -247,12 +247,56 @@ Definition cmd_key (k : bytes) : bytes :=
   | PPanic _ => str "PANIC-model"
   end.
 
+(* toml <value script whose root is a table>: the same tree read as a toml::Value (arrays -> Value::Array, inline
+   tables -> Value::Table in the order of the script): the text of toml::to_string(&value) (`t=`) and of Display for
+   toml::Table (`tt=`) as Model/TomlDisplay.v builds them, and the statement of C06_toml_display evaluated on it *)
+Fixpoint tvc_of_cval (c : cval) : tvc :=
+  match c with
+  | CScalar s => TvLeaf s
+  | CArrPush es | CArrCollect es => TvArr (map tvc_of_cval es)
+  | CInlInsert l | CInlCollect l => TvTab (map (fun kv => (fst kv, tvc_of_cval (snd kv))) l)
+  end.
+Fixpoint tvc_eqb (a b : tvc) : bool :=
+  match a, b with
+  | TvLeaf x, TvLeaf y => scalar_eqb x y
+  | TvArr x, TvArr y =>
+    (fix go (x y : list tvc) : bool :=
+       match x, y with [], [] => true | v :: x', v' :: y' => tvc_eqb v v' && go x' y' | _, _ => false end) x y
+  | TvTab x, TvTab y =>
+    (fix go (x y : list (bytes * tvc)) : bool :=
+       match x, y with
+       | [], [] => true
+       | (k, v) :: x', (k', v') :: y' => bytes_eqb k k' && tvc_eqb v v' && go x' y'
+       | _, _ => false
+       end) x y
+  | _, _ => false
+  end.
+Definition cmd_toml (script : bytes) : bytes :=
+  match rd_value (List.length script) script with
+  | Some (c, []) =>
+    match tvc_of_cval c with
+    | TvTab m =>
+      let one (three : bool) :=
+          let t := tv_doc three m in
+          show_hex (display_document t REmpty) ++ str " rt=" ++
+          match parse_document (display_document (render_tbl float_text t) REmpty) with
+          | POk d => if tvc_eqb (TvTab (tvc_of_entries (abs_tbl (doc_root d)))) (TvTab (root_order three m)) then str "ok" else str "BAD"
+          | PErr _ _ => str "ERR"
+          | PPanic _ => str "PANIC-model"
+          end in
+      str "t=" ++ one true ++ str " tt=" ++ one false
+    | _ => str "not-a-table"
+    end
+  | _ => str "bad-script"
+  end.
+
 Definition run_cmd (name : bytes) (args : list bytes) : bytes :=
   match args with
   | [a] =>
     if bytes_eqb name (str "build") then cmd_build a
     else if bytes_eqb name (str "val") then cmd_val a
     else if bytes_eqb name (str "key") then cmd_key a
+    else if bytes_eqb name (str "toml") then cmd_toml a
     else str "unknown-command"
   | _ => str "bad-args"
   end.
